@@ -418,7 +418,10 @@ def topological_symmetry_number(graph: StereoMolGraph) -> int:
             "all stereocenters have to be defined"
             " to calculate the symmetry number"
         )
-    colorings = color_refine_smg(graph)
+    colorings = {
+        atom: int(color)
+        for atom, color in zip(graph.atoms, color_refine_smg(graph))
+    }
     mappings = vf2pp_all_isomorphisms(
         graph, graph, atom_labels=(colorings, colorings), stereo=True
     )
